@@ -42,6 +42,10 @@ PROGRAMS = [
     ("size([k, k, k].filter(q, q % 2 == 0)) + k", "k", [1, 2, 3, 4]),
     ("has({'x': k}.x) && !has({'x': k}.y) ? k + 1 : k - 1", "k", [1, 2]),
     ("k.startsWith('a') || k.endsWith('z') ? k + '!' : k", "k", ["abc", "xyz", "mmm"]),
+    # results that ARE containers (lists from map/filter, a map holding lists): what a thread was handed must stay what it was handed
+    ("[k, k + 1, k + 2].map(x, x * 2)", "k", [1, 2, 3, 5]),
+    ("[k, 1, 2, 3].filter(y, y > 1)", "k", [4, 5, 6]),
+    ("{'m': [k].map(x, x + 1), 'f': [k, 0].filter(y, y == k), 'l': [k, [k]]}", "k", [1, 2, 3]),
     # conversions, text parsing, regular expressions, containers: other parts of the library that might keep state between calls
     # (the same input converted twice in a row, then another one, then the first again: hit and miss paths of any memo)
     ("string(duration(k) + duration(k)) + '|' + string(duration('1s') + duration(k)) + '|' + string(duration(k) > duration('1h'))", "k", ["90m", "24h", "10s", "1h1s"]),
@@ -98,6 +102,8 @@ def thread_work(runner, prog, bind_list, sink, on_built=None, prebuilt=None):
             try:
                 v = p.evaluate(MV.cel_env(b))
                 sink.append(["V", core.canon(v)])
+                if isinstance(sink, Sink):
+                    sink.raw.append((len(sink) - 1, v))  # kept: looked at again once every thread is done
             except c.CELEvalError as ex:
                 # the error a thread gets must be the error it gets alone: class, arguments and text (addresses masked)
                 sink.append(["E", error_text(ex)])
@@ -105,6 +111,62 @@ def thread_work(runner, prog, bind_list, sink, on_built=None, prebuilt=None):
                 sink.append(["X", "evaluate", type(ex).__name__, core._msg(ex)[:60]])
 
     return body
+
+
+class Sink(list):
+    """The outcomes of one thread; .raw keeps (index, the value object evaluate() returned)."""
+
+    def __init__(self):
+        super().__init__()
+        self.raw = []
+
+
+def containers_in(v, depth=0):
+    """ids of the mutable containers reachable from a returned value."""
+    out = {}
+    if depth > 6:
+        return out
+    if isinstance(v, list):
+        out[id(v)] = v
+        for x in v:
+            out.update(containers_in(x, depth + 1))
+    elif isinstance(v, dict):
+        out[id(v)] = v
+        for k, x in v.items():
+            out.update(containers_in(x, depth + 1))
+    return out
+
+
+def later_check(acc, kind, label, specs, sinks):
+    """After every thread has finished: a value handed back by evaluate() still reads what it read when it was handed back, and no
+    mutable container is reachable from the results of two different threads (each thread built its own program and bindings)."""
+    good = True
+    owners = {}
+    for j, sink in enumerate(sinks):
+        for i, v in getattr(sink, "raw", []):
+            acc.hook("result-re-read-after-all-threads-finished")
+            try:
+                now = core.canon(v)
+            except Exception as ex:  # pragma: no cover
+                now = ["unreadable", type(ex).__name__]
+            other = "".join(sorted({r for k, (r, _) in enumerate(specs) if k != j}))
+            if i < len(sink) and sink[i][0] == "V" and now != sink[i][1]:
+                good = False
+                acc.violation(
+                    f"thread-runner={specs[j][0]} other-runners={other} phase=after-return result-changed-after-it-was-returned",
+                    f"[{kind} {label}] thread {j} ({specs[j][0]}) evaluating {specs[j][1][0]!r}: call {i} returned {core.jkey(sink[i][1])[:80]}; once all threads had finished the same object read {core.jkey(now)[:80]}",
+                    {"kind": kind, "specs": [[r, PROGRAMS.index(p) if p in PROGRAMS else -1] for r, p in specs], "label": label},
+                )
+            for oid, obj in containers_in(v).items():
+                first = owners.setdefault(oid, (j, obj))
+                if first[0] != j and first[1] is obj:
+                    good = False
+                    acc.violation(
+                        f"thread-runner={specs[j][0]} other-runners={other} phase=after-return result-object-shared-between-threads",
+                        f"[{kind} {label}] a {type(obj).__name__} reachable from the result of thread {first[0]} is the same object as one reachable from call {i} of thread {j} ({specs[j][1][0]!r})",
+                        {"kind": kind, "specs": [[r, PROGRAMS.index(p) if p in PROGRAMS else -1] for r, p in specs], "label": label},
+                    )
+    return good
 
 
 def error_text(ex):
@@ -140,7 +202,7 @@ class Explorer:
         fresh_bindings: explicit binding lists (one per thread) holding values this process has never seen: the solo outcomes are
         then computed AFTER the concurrent run, so that nothing in the process is warmed up for them beforehand."""
         acc = self.acc
-        sinks = [[] for _ in specs]
+        sinks = [Sink() for _ in specs]
         bodies = []
         solos = []
         bls = []
@@ -174,7 +236,7 @@ class Explorer:
         if not ok_run:
             acc.inconclusive.append(f"scheduler watchdog fired in a {kind} schedule ({label})")
             return True
-        good = True
+        good = later_check(acc, kind, label, specs, sinks)
         for j, (got, want) in enumerate(zip(sinks, solos)):
             if got != want:
                 good = False
@@ -196,7 +258,7 @@ class Explorer:
         if code is None or site[0] == "<string>":
             return self.run_schedule(kind, specs, sched.preempt_at_site(site, occurrence, first_after_built=after_built), label, limits=limits, fresh_bindings=fresh_bindings)
         acc = self.acc
-        sinks = [[] for _ in specs]
+        sinks = [Sink() for _ in specs]
         bls, solos = [], []
         for j, (runner, prog) in enumerate(specs):
             bl = fresh_bindings[j] if fresh_bindings else bindings_for(prog, j, limits[j] if limits else None)
@@ -226,7 +288,7 @@ class Explorer:
         if not finished:
             acc.inconclusive.append(f"a thread did not finish in a {kind} schedule ({label})")
             return True
-        good = True
+        good = later_check(acc, kind, label, specs, sinks)
         for j, (got, want) in enumerate(zip(sinks, solos)):
             if got != want:
                 good = False
@@ -248,7 +310,7 @@ class Explorer:
         if c1 is None or c2 is None or "<string>" in (site1[0], site2[0]):
             return True
         acc = self.acc
-        sinks = [[], []]
+        sinks = [Sink(), Sink()]
         bls, solos = [], []
         for j, (runner, prog) in enumerate(specs):
             bl = bindings_for(prog, j, limits[j])
@@ -273,7 +335,7 @@ class Explorer:
         if not finished:
             acc.inconclusive.append(f"a thread did not finish in a double-preemption schedule ({label})")
             return True
-        good = True
+        good = later_check(acc, "double-preemption", label, specs, sinks)
         for j, (got, want) in enumerate(zip(sinks, solos)):
             if got != want:
                 good = False
@@ -430,7 +492,7 @@ def stress(acc, rnd, seconds, nthreads=4):
             for j, (runner, prog) in enumerate(specs):
                 bl = bindings_for(prog, j) * reps
                 solos.append(solo(runner, prog, bl))
-                sink = []
+                sink = Sink()
                 sinks.append(sink)
                 threads.append(threading.Thread(target=thread_work(runner, prog, bl, sink), daemon=True))
             for t in threads:
@@ -442,6 +504,8 @@ def stress(acc, rnd, seconds, nthreads=4):
             acc.evaluations += n
             acc.nt(["stress", rounds, mix])
             acc.cell("stress", mix, "ok" if sinks == solos else "differ")
+            if all(not t.is_alive() for t in threads):
+                later_check(acc, "stress", mix, specs, sinks)
             for j, (got, want) in enumerate(zip(sinks, solos)):
                 if got != want:
                     k = next((i for i, (g, w) in enumerate(zip(got, want)) if g != w), min(len(got), len(want)))
